@@ -198,8 +198,15 @@ impl Monitor for C06 {
             if w == 3 {
                 // IDAT payload total = zlib stream length = raw + 6
                 if s.bytes.len() + 6 <= 1024 {
-                    ctx.count("premise_not_met:idat_total_le_1024");
-                    continue;
+                    // not "IDAT chunks totalling more than 1024 bytes" - but if the whole zlib stream sits in ONE
+                    // chunk, the file still embeds S behind a zlib header (the chunk header in front of it and the
+                    // CRC behind it are arbitrary bytes), and the zlib clause of the statement applies
+                    if variant.contains("idat_chunks=1 ") {
+                        ctx.count("idat_total_le_1024:single_chunk_judged_under_the_zlib_clause");
+                    } else {
+                        ctx.count("premise_not_met:idat_total_le_1024");
+                        continue;
+                    }
                 }
             }
             let mut pre_n = *r.pick(&[0usize, 0, 1, 3, 4, 17, 300, 4096]);
